@@ -2,7 +2,7 @@
     appendix B): a case is a flat list of naturals; the result is a list of
     lines of naturals. The parser is Gallina so that the extracted run and the
     in-Coq [vm_compute] run share it. *)
-From MB Require Import Model.Framework Model.Validate Model.Thresholds.
+From MB Require Import Model.Framework Model.Validate Model.Thresholds Model.FFI.
 From MB Require Model.Codec.Base64 Model.Codec.Bincode.
 Open Scope N_scope.
 
@@ -232,8 +232,43 @@ Definition run_de (l : list N) : list (list N) :=          (* bytes -> machine, 
   | None => [[0]]
   end.
 
+(** FFI case: like a framework case, events given as (type, machine) pairs;
+    per call the result code, the number of actions written and their C
+    encodings; then the start code for the given flags *)
+Definition pcevent : parser (N * N) := ty <~ pnum ;; m <~ pnum ;; pret (ty, m).
+Definition pccall : parser (list (N * N) * Z) := t <~ pnum ;; evs <~ plist pcevent ;; pret (evs, Z.of_N t).
+
+Fixpoint run_ccalls (c : cfg) (tp : tape) (s : fstate) (h : list (list (N * N) * Z)) : list (list N) :=
+  match h with
+  | [] => []
+  | (evs, t) :: h' =>
+      match ffi_on_events c tp false false false false s evs t with
+      | Ok (code, s', out) => (code :: N.of_nat (length out) :: concat out) :: run_ccalls c tp s' h'
+      | o => [out_fail o]
+      end
+  end.
+
+Definition run_ffi (l : list N) : list (list N) :=
+  match (c <~ pcfg ;; t0 <~ pnum ;; h <~ plist pccall ;; tp <~ plist pnum ;;
+         flags <~ plist pnum ;; pret (c, t0, h, tp, flags)) l with
+  | Some ((c, t0, h, tp, flags), []) =>
+      let tape := tape_of_list tp in
+      let start :=
+        match flags with
+        | out_null :: utf8 :: lines =>
+            [ffi_start_code (negb (out_null =? 0)) (negb (utf8 =? 0)) (map (fun x => negb (x =? 0)) lines)
+                            (fw_max_padding_frac c) (fw_max_blocking_frac c)]
+        | _ => [99]
+        end in
+      match fnew c tape (Z.of_N t0) with
+      | Ok s => start :: [N.of_nat (length (machines c))] :: run_ccalls c tape s h
+      | o => [start; out_fail o]
+      end
+  | _ => [[99]]
+  end.
+
 (** entry point: tag 1 = framework case, 2 = validation case, 3 = sampling
-    case, 4 = transition-vector case, 5-8 = codec cases *)
+    case, 4 = transition-vector case, 5-8 = codec cases, 9 = FFI case *)
 Definition run_wire (l : list N) : list (list N) :=
   match l with
   | 1 :: rest =>
@@ -248,5 +283,6 @@ Definition run_wire (l : list N) : list (list N) :=
   | 6 :: rest => run_b64enc rest
   | 7 :: rest => run_b64dec rest
   | 8 :: rest => run_de rest
+  | 9 :: rest => run_ffi rest
   | _ => [[98]]
   end.
